@@ -24,6 +24,7 @@ func propC13(c *Ctx) {
 	}
 	t := c.Tables()
 	c.ruleC13(m, t)
+	c.ruleFirstByteTables("C13-KEYWORD-PREFILTER")
 	a := c.ruleAnalysis(m, map[string]string{}, false)
 	c.R.Stats["traces_validated_against_impl"] = 0
 	c.R.Stats["exhaustive"] = true
@@ -37,4 +38,5 @@ func propC12(c *Ctx) {
 		return
 	}
 	c.ruleC12(m)
+	c.ruleFirstByteTables("C12-KEYWORD-PREFILTER") // a Description's Text lexeme must end where the next directive starts
 }
